@@ -1453,9 +1453,10 @@ proof fn c14_cpc_wf_sparse_count(b: Seq<u8>, seed: u64, s: CpcSketch)
   ensures /*@C14.cpc.wf.sparse_count*/ s.wf_sparse_count()
 {
 }
-// ... and these are ALL the missing clauses: with a bounded numCoupons and consistent flags only fic_ok remains (this lemma verifies)
+// ... and these are ALL the missing clauses: with numCoupons bounded so that the offset is at most 56, fic_ok and the sparse count are what remains
+// (this lemma verifies)
 proof fn c14_cpc_wf_complete(b: Seq<u8>, seed: u64, s: CpcSketch)
-  requires deser_delivers(b, seed, s), dco(s.lg_k, s.num_coupons) <= 56, cs_flavor_ok(flavor_spec(s.lg_k, s.num_coupons), cs_of(b)), s.fic_ok()
+  requires deser_delivers(b, seed, s), dco(s.lg_k, s.num_coupons) <= 56, s.fic_ok(), s.wf_sparse_count()
   ensures /*@C14.cpc.wf*/ s.wf()
 {
     lemma_k_bound(s.lg_k);
@@ -1470,6 +1471,9 @@ proof fn c14_cpc_wf_complete(b: Seq<u8>, seed: u64, s: CpcSketch)
     } else {
         assert((27 + 8 * off) * k == 27 * k) by (nonlinear_arith) requires off == 0;
     }
+    assert(s.wf_offset());
+    assert(s.thresholds());
+    assert(s.wf_matrix());
 }
 
 }
